@@ -20,7 +20,7 @@ tvars == <<tid, l, m, bad, badl>>
 FactsOfTrace(t) ==
     [framing |-> t.facts.framing, strict |-> t.facts.strict, decoding |-> t.facts.decoding, dmg |-> t.facts.dmg,
      zone |-> IF t.facts.dmg = "cut" THEN ZoneOf(t.facts.framing, t.layout, t.cutat) ELSE "none",
-     indep |-> t.facts.indep, total |-> t.facts.total, checkbytes |-> t.facts.checkbytes]
+     indep |-> t.facts.indep, total |-> t.facts.total, checkbytes |-> t.facts.checkbytes, line |-> t.facts.line]
 
 TInit == tid = 1 /\ l = 1 /\ m = MonInit /\ bad = "ok" /\ badl = 0
 
